@@ -7,16 +7,16 @@
 // closes the request body before or after Do returns), or net/http's own Transport
 // against an httptest server whose handler follows the same script.
 //
-//   (up <script|http> (<chunk len>...) <close 0|1> <read k> <eof 0|1> (ans <st>)|drop|cancel (v <rdsz> <late 0|1> <drain 0|1>))
-//   (obs ((<len> <ok 0|1>)...) none|nil|(http <st>)|transport|ctx <other> <after_end> <leak> <hang>)
+//	(up <script|http> (<chunk len>...) <close 0|1> <read k> <eof 0|1> (ans <st>)|drop|cancel (v <rdsz> <late 0|1> <drain 0|1>))
+//	(obs ((<len> <ok 0|1>)...) none|nil|(http <st>)|transport|ctx <other> <after_end> <leak> <hang>)
 //
 // Part "conc" (Concurrent.v): N goroutines share ONE webdav.Client and ONE
 // webdav.Handler{LocalFileSystem}; goroutine i works below collection <name i>.
 // Every goroutine's answers and final subtree are recorded while all run at once and
 // again when its program runs alone from the same initial tree.
 //
-//   (conc <inproc|http> (client <name> <tree> (<op>...))...)
-//   (cobs <stray 0|1> <hang 0|1> (cl (<answer>...) <tree> (<answer>...) <tree>)...)
+//	(conc <inproc|http> (client <name> <tree> (<op>...))...)
+//	(cobs <stray 0|1> <hang 0|1> (cl (<answer>...) <tree> (<answer>...) <tree>)...)
 //
 // Part "cdav" (cdav.go): the same differential for caldav/carddav handlers, no model.
 //
